@@ -6,10 +6,12 @@ import (
 	"fmt"
 	mrand "math/rand"
 	"testing"
+	"time"
 
 	"github.com/btcsuite/btcd/btcec/v2"
 	"github.com/btcsuite/btcd/btcutil"
 	"github.com/elementsproject/peerswap/swap"
+	"github.com/elementsproject/peerswap/txwatcher"
 
 	"verifharness/ref"
 	"verifharness/sim"
@@ -462,6 +464,12 @@ func TestC01(t *testing.T) {
 		c := cases[i%len(cases)]
 		runC01Case(r, r.Seed*1_000_003+int64(i)+1, c)
 	})
+	// the depth clause with the real watchers in the loop (reorganisations below the required depth)
+	txwatcher.VerifSetPolling(time.Millisecond, time.Millisecond)
+	rc := c01RealCases()
+	parallelDo(len(rc)*r.N(1, 6), 8, func(i int) { runC01Real(r, r.Seed*1_000_033+int64(i)+1, rc[i%len(rc)]) })
+	rp, _ := r.Extra["real_watcher_histories_paid"].(int)
+	r.Require(rp >= len(rc)/3, fmt.Sprintf("real-watcher histories paid only %d times: the real watchers do not reach the payment decision", rp))
 	hp, _ := r.Extra["honest_paid"].(int)
 	r.Require(hp >= 4*reps, fmt.Sprintf("honest cases paid only %d times: workload does not reach the payment decision", hp))
 	vc, _ := r.Extra["validator_invocations_cases"].(int)
